@@ -238,7 +238,7 @@ def run(ctx):
     import pyworkers.remote_pickle as rp
     from multiprocessing.reduction import ForkingPickler
     sigs = {}
-    protos = (None, 2) if ctx.quick else (0, 1, 2, 3, 4, 5)
+    protos = (None, 0, 2) if ctx.quick else (None, 0, 1, 2, 3, 4, 5)
     n_max = 4 if ctx.quick else 5
     ctx.rule = ('(1) every ordered tree with <= %d nodes over {list, tuple, dict, set, plain instance} + every single back-edge; '
                 '(2) instances of %d generated plain classes (getstate none/self/**kw x setstate x slots x getnewargs x reduce); '
